@@ -45,6 +45,9 @@ def run(check: Check, repo: Repo, tier: str) -> None:
     LR.loc_prefix(check, repo)
     LR.loc_offset(check, repo)
     LR.line_owners(check, repo)
+    LR.excerpt_verbatim(check, repo)
+    LR.offset_owners(check, repo)
+    G.cached_mutable_result(check, repo.package_modules("language") + repo.package_modules("error"))
     G.value_keyed_cache(check, repo, repo.package_modules("language") + repo.package_modules("error"))
     LR.object_truthiness(check, repo, scope)
     check.floor("OBJECT-TRUTHINESS", 5, "presence tests of optional package objects (Source, Location, Token ...)")
